@@ -51,7 +51,11 @@ def run_unit(unit):
         for ob in obs:
             if only and not any(s in ob.name for s in only):
                 continue
-            r = e.solve(ob, unit.get("timeout_ms", 20000), want_model=(mode == "UNROLL"))
+            ext = None
+            if mode == "UNROLL":
+                from pyvc.model2py import extract as _ex
+                ext = lambda eng, m, _q=qual: _ex(eng, m, _q)
+            r = e.solve(ob, unit.get("timeout_ms", 20000), want_model=(mode == "UNROLL"), extract=ext)
             rec = {"name": ob.name, "kind": ob.kind, "result": r, "time": round(ob.time, 3),
                    "backend": ob.backend, "reason": ob.reason, "line": ob.line,
                    "clause": ob.info.get("clause"), "callee": ob.info.get("callee")}
@@ -62,12 +66,11 @@ def run_unit(unit):
                 if r2 == "unsat":
                     rec["result"] = "unsat"
                     rec["backend"] = "cvc5"
-            if r == "sat" and mode == "UNROLL" and ob.model is not None:
-                try:
-                    from pyvc.model2py import extract
-                    rec["model"] = extract(e, ob.model, qual)
-                except Exception as ex:      # model extraction must never turn into a verdict
-                    rec["model_error"] = "%s: %s" % (type(ex).__name__, ex)
+            if r == "sat" and mode == "UNROLL":
+                if ob.model is not None:
+                    rec["model"] = ob.model
+                if getattr(ob, "model_error", None):
+                    rec["model_error"] = ob.model_error
             if unit.get("sample") and len(out.get("samples", [])) < 2 and ob.kind in ("post", "inv-step#0"):
                 out.setdefault("samples", []).append({"name": ob.name, "smt2_head": e.to_smt2(ob)[-600:]})
             out["obligations"].append(rec)
